@@ -260,6 +260,10 @@ class DecodeChunkIntoAbs(Contract):
 import PIL.Image as _PILImage  # noqa: E402
 
 
+class AnyOtherPILException(Exception):
+    """stands for every exception PIL may raise that is not an OSError"""
+
+
 class SPilImage:
     _pyvc_symbolic = True
 
@@ -275,7 +279,12 @@ def m_pil_open(interp, fp, *a, **k):
     c = ctx()
     c.trust("PIL.Image.open: raises some exception on data it does not recognise, else an image of some mode (decoded lazily)")
     if interp.truth(c.bool("pil_open_fails")):
-        raise RaiseSig(OSError("cannot identify image file"))
+        # PIL raises UnidentifiedImageError / OSError for most bad input, but also exceptions that are
+        # not OSErrors (DecompressionBombError, SyntaxError, ValueError, struct.error ...): the assumed
+        # contract is only "some Exception", so both kinds are explored
+        if interp.truth(c.bool("pil_open_failure_is_an_OSError")):
+            raise RaiseSig(OSError("cannot identify image file"))
+        raise RaiseSig(AnyOtherPILException("decompression bomb / broken header / ..."))
     for m in ("L", "RGB"):
         if interp.truth(c.bool(f"pil_mode_is_{m}")):
             return SPilImage(m)
@@ -286,7 +295,9 @@ def _asarray_pil(interp, img):
     c = ctx()
     c.trust("np.asarray(PIL image): raises some exception on truncated/corrupt data, else an array (rows, cols[, 3]) uint8")
     if interp.truth(c.bool("pil_decode_fails")):
-        raise RaiseSig(OSError("image file is truncated"))
+        if interp.truth(c.bool("pil_decode_failure_is_an_OSError")):
+            raise RaiseSig(OSError("image file is truncated"))
+        raise RaiseSig(AnyOtherPILException("broken data stream / ..."))
     h, w = c.int("img_h"), c.int("img_w")
     c.assume(And(h >= 1, w >= 1))
     shape = (h, w) if img.mode == "L" else (h, w, 3 if img.mode == "RGB" else 4)
